@@ -99,6 +99,9 @@ def check(F, rep, tier):
     gv = [f for f in F.find("<crate::vcs::git::GitVcs as crate::vcs::Vcs>::get_vcs_data")]
     if rep.anchor("R02.3", "<GitVcs as Vcs>::get_vcs_data", gv):
         f = gv[0]; rep.fn_seen(f)
+        # private helpers that collect part of the data (collect_head_data / fill_tag_data) are seen through; the git sub-commands stay calls
+        f = mir.inlined(F, f, depth=3, keep=("get_commit_hash", "get_commit_timestamp", "is_dirty", "get_current_branch", "calculate_distance", "get_tag_timestamp", "get_tag_commit_hash", "get_latest_tag", "run_git_command", "check_shallow_clone"),
+                        ok=lambda F_, caller, cp, g: g is not None and g.kind != "closure" and cp.startswith("crate::vcs::git::"))
         want = {"commit_hash": "get_commit_hash", "commit_timestamp": "get_commit_timestamp", "is_dirty": "is_dirty", "current_branch": "get_current_branch",
                 "distance": "calculate_distance", "tag_timestamp": "get_tag_timestamp", "tag_commit_hash": "get_tag_commit_hash", "tag_version": "get_latest_tag"}
         got = {}
